@@ -49,7 +49,7 @@ impl<const N: usize> AEADCipherCodec<N> {
                 dice::fill_bytes(salt);
                 dst.extend_from_slice(&salt[..]);
                 let mut temp = BytesMut::with_capacity(address::length(address) + item.remaining());
-                address::encode(address, &mut temp);
+                address::encode(address, &mut temp)?;
                 temp.extend_from_slice(&item);
                 let mut encoder = self.new_encoder(context.key, salt)?;
                 encoder.encode_packet(temp, dst).map_err(|e| anyhow!(e))
@@ -87,7 +87,7 @@ impl<const N: usize> AEADCipherCodec<N> {
         dst.put_u64(aead_2022::now()?);
         dst.put_u16(padding_length);
         dst.extend_from_slice(&dice::roll_bytes(padding_length as usize));
-        address::encode(address, dst);
+        address::encode(address, dst)?;
         dst.extend_from_slice(&item);
         unsafe {
             dst.advance_mut(tag_size);
@@ -146,7 +146,7 @@ impl<const N: usize> AEADCipherCodec<N> {
                 dst.advance_mut(padding_length as usize);
             }
         }
-        address::encode(address, dst);
+        address::encode(address, dst)?;
         dst.extend_from_slice(&item);
         unsafe { dst.advance_mut(tag_size) };
         match self.kind {
